@@ -15,6 +15,7 @@ import (
 	"net/http"
 	"os"
 	"path/filepath"
+	"runtime"
 	"sort"
 	"strings"
 	"sync"
@@ -325,6 +326,93 @@ func ExecuteC05(t *testing.T, plan *Plan) *RunResult {
 			}
 		}
 	}
+	// (h) renders of DIFFERENT charts running at the same time in one process: each must equal its own sequential render
+	// (state shared between renders through the engine's packages shows up here; under the race detector also as a race)
+	if rs.G > 0 && base.Err == "" {
+		variants := []string{"config/*", "config/a*", "config/?.txt", "config/b*", "config/[ab].txt", "**/a.txt"}
+		type one struct {
+			c  *chart.Chart
+			rv chartutil.Values
+		}
+		build := func(i int) (*one, error) {
+			sp := *spec.cloneSpec()
+			pat := variants[i%len(variants)]
+			for k, v := range sp.RawFiles {
+				sp.RawFiles[k] = strings.ReplaceAll(v, "config/*", pat)
+			}
+			sp.RawFiles["templates/variant.yaml"] = fmt.Sprintf("apiVersion: v1\nkind: ConfigMap\nmetadata:\n  name: c05-variant\ndata:\n  v: %q\n  n: {{ regexReplaceAll \"[a-z]+%d\" \"abc%d-x\" \"r\" | quote }}\n  files: {{ range $p, $_ := .Files.Glob %q }}{{ $p }};{{ end }}\n", pat, i, i, pat)
+			c := BuildChart(&sp)
+			if err := chartutil.ProcessDependencies(c, deepCopyMap(vals)); err != nil {
+				return nil, err
+			}
+			rv, err := chartutil.ToRenderValuesWithSchemaValidation(c, deepCopyMap(vals), chartutil.ReleaseOptions{Name: "rel", Namespace: "ns1", Revision: 1, IsInstall: true}, chartutil.DefaultCapabilities.Copy(), true)
+			if err != nil {
+				return nil, err
+			}
+			return &one{c, rv}, nil
+		}
+		n := 2 + rs.G
+		refs := make([]map[string]string, n)
+		refErr := make([]error, n)
+		ok := true
+		for i := 0; i < n && ok; i++ {
+			o, err := build(i)
+			if err != nil {
+				ok = false
+				break
+			}
+			refs[i], refErr[i] = engine.Render(o.c, o.rv)
+		}
+		if ok {
+			outs := make([]map[string]string, n)
+			errs := make([]error, n)
+			const reps = 3
+			inputs := make([][]*one, n) // fresh chart and values per render: a chart may write into its .Values
+			for i := 0; i < n; i++ {
+				for rep := 0; rep < reps; rep++ {
+					o, _ := build(i)
+					inputs[i] = append(inputs[i], o)
+				}
+			}
+			if plan.CoRelease == "render" {
+				// race-detector population: let the renders overlap for real, otherwise whichever lock the first render
+				// happens to release orders it before the next one and hides an unsynchronised access
+				defer runtime.GOMAXPROCS(runtime.GOMAXPROCS(8))
+			}
+			var wg sync.WaitGroup
+			start := make(chan struct{})
+			for i := 0; i < n; i++ {
+				wg.Add(1)
+				go func(i int) {
+					defer wg.Done()
+					defer func() {
+						if r := recover(); r != nil {
+							errs[i] = fmt.Errorf("panic: %v", r)
+						}
+					}()
+					<-start
+					for rep := 0; rep < reps; rep++ {
+						outs[i], errs[i] = engine.Render(inputs[i][rep].c, inputs[i][rep].rv)
+						if errs[i] != nil || !mapsEqual(outs[i], refs[i]) {
+							return
+						}
+						runtime.Gosched()
+					}
+				}(i)
+			}
+			close(start)
+			wg.Wait()
+			res.Checks++
+			for i := 0; i < n; i++ {
+				nRenders += 3
+				if (errs[i] == nil) != (refErr[i] == nil) || (refErr[i] == nil && !mapsEqual(outs[i], refs[i])) {
+					violate("identical-output", "concurrent-different-charts", fmt.Sprintf("chart variant %d (glob %q) rendered concurrently with other charts differs from its own sequential render (err %v vs %v)", i, variants[i%len(variants)], errs[i], refErr[i]))
+					break
+				}
+			}
+			res.Probes["concurrent-different-charts"] += n
+		}
+	}
 	// (g) render with a cluster connection (what a real install/upgrade or --dry-run=server does): the engine gets a
 	// REST config; the simulated API server is empty, so lookup finds nothing and the output equals the client-only one,
 	// and DNS stays disabled unless enabled
@@ -501,7 +589,9 @@ func genC05(seed, index uint64, tier string) *Plan {
 		rs.UsesDNS = true
 		cs.RawFiles["templates/dns.yaml"] = "apiVersion: v1\nkind: ConfigMap\nmetadata:\n  name: c05-dns\ndata:\n  ip: {{ getHostByName \"verif-canary.example\" | quote }}\n"
 	}
-	switch g.N(5) {
+	// (since the file:// loader was removed every $ref to a host file ends in the same error; keep those a minority so that
+	// most runs get as far as comparing rendered output)
+	switch g.Weighted(1, 1, 1, 1, 12) {
 	case 0:
 		rs.SchemaRef = "abs"
 		cs.Schema = `{"$ref": "@CANARY_URL@"}`
@@ -527,5 +617,13 @@ func genC05(seed, index uint64, tier string) *Plan {
 	p.Charts = []ChartSpec{cs}
 	p.Steps = []Step{{Op: &OpSpec{Op: "install", Chart: 0, Values: g.UserValues(), DryRun: true, ClientOnly: true}}}
 	p.Variant = "render"
+	if tier == "race" {
+		// the same population under the race detector: fewer repetitions, the concurrent phases are what matters
+		rs.K = 1
+		rs.Permute = rs.Permute[:1]
+		rs.Canaries = rs.Canaries[:1]
+		p.Variant = "race-render"
+		p.CoRelease = "render"
+	}
 	return p.Clone()
 }
